@@ -738,7 +738,7 @@ class Models:
             ps = self.I.F.bodies[a[2].fn]["params"]
             if len(ps) >= 3 and ps[2].get("pat"):
                 ety = ps[2]["pat"].get("t")
-        r = self.I.loops.py_for(e, st, a[0], a[1], step, elem_ty=ety)
+        r = self.I.loops.py_for(e, st, a[0], a[1], step, elem_ty=ety, closures=[a[2]])
         if r is None:
             return self.I.loops.fold(e, st, a[0], a[1], a[2])
         return [(s, k, v) for s, k, v, _ in r]
